@@ -125,6 +125,193 @@ fn oracle_inner(c: &Case, ctx: &mut Ctx, sim: &mut netsim::sim::Sim) -> CaseResu
 	Ok(())
 }
 
+// ------------------------------------------------------------------------------------------------
+// channel establishment with asynchronous initial persistence: funding_signed, the funding broadcast and
+// channel_ready are released only after the initial monitor persist (and later updates) completed
+// ------------------------------------------------------------------------------------------------
+
+#[derive(Clone, Debug, Serialize, Deserialize)]
+struct OpenCase {
+	spec: WorldSpec,
+	async_funder: bool,
+	async_fundee: bool,
+	/// when each side's initial persist is completed: 0 = right away, 1 = after the peer's next message was
+	/// delivered, 2 = after the funding confirmed, 3 = after some more blocks
+	complete_funder_at: u8,
+	complete_fundee_at: u8,
+	value_sat: u64,
+	push_permille: u16,
+	extra_blocks: u8,
+}
+
+fn open_strat() -> impl Strategy<Value = OpenCase> {
+	(world_spec(vec![Topology::Pair]), any::<bool>(), any::<bool>(), 0u8..4, 0u8..4, prop_oneof![Just(100_000u64), 30_000u64..5_000_000], 0u16..800, 0u8..4)
+		.prop_map(|(spec, async_funder, async_fundee, complete_funder_at, complete_fundee_at, value_sat, push_permille, extra_blocks)| OpenCase { spec, async_funder, async_fundee, complete_funder_at, complete_fundee_at, value_sat, push_permille, extra_blocks })
+}
+
+fn open_oracle(c: &OpenCase, ctx: &mut Ctx) -> CaseResult {
+	let r = open_oracle_inner(c, ctx);
+	r
+}
+
+fn open_oracle_inner(c: &OpenCase, ctx: &mut Ctx) -> CaseResult {
+	use lightning::events::Event;
+	use netsim::rec::*;
+	use netsim::sim::*;
+	use netsim::world::*;
+	// an empty world: no channel yet
+	let cfg = c.spec.user_config();
+	let w = World::new(WorldCfg { n: 2, configs: vec![cfg; 2], keep_images: false, deferred_monitor: c.spec.deferred, connect_style: connect_style_of(c.spec.connect_style), node_styles: vec![], disable_revocation_policy: vec![] });
+	for nd in w.nodes.iter() {
+		*nd.fee_estimator.sat_per_kw.lock().unwrap() = c.spec.feerate;
+	}
+	let mut sim = Sim::new(w);
+	if c.spec.ctype != CType::Static {
+		sim.fund_wallets(2);
+	}
+	sim.w.set_async(0, None, c.async_funder);
+	sim.w.set_async(1, None, c.async_fundee);
+	let ids = [sim.w.node_id(0), sim.w.node_id(1)];
+	let keep = (c.value_sat / 5).max(10_000);
+	let push = (c.value_sat * c.push_permille as u64).min((c.value_sat - keep) * 1000);
+	if sim.w.nodes[0].node.create_channel(ids[1], c.value_sat, push, 42, None, None).is_err() {
+		ctx.discard();
+		return Ok(());
+	}
+	// the invariants, evaluated on everything emitted so far
+	let mut log_cur = 0usize;
+	let mut hist_cur = 0usize;
+	// per node: is the initial persist (and any later update) still in flight?
+	let pending = |sim: &Sim, node: usize| -> bool { !sim.w.pending_updates(node).is_empty() };
+	let mut funding_tx: Option<bitcoin::Transaction> = None;
+	let mut saw_gated = 0u32;
+	let mut withheld = 0u32;
+	let mut check = |sim: &Sim, funding_tx: &Option<bitcoin::Transaction>, withheld: &mut u32, saw_gated: &mut u32| -> CaseResult {
+		let evs = merged_since(sim, &mut hist_cur, &mut log_cur);
+		for (_, ev) in evs {
+			match ev {
+				M::S(SEvent::Emit { from, wire, .. }) => {
+					let gated = match &wire {
+						Wire::ChannelReady(_) => Some("channel_ready"),
+						// funding_signed is deliberately not gated: the property lists channel_ready and the funding
+						// broadcast, and the library documents that signing the counterparty's funding transaction
+						// before the monitor is durable cannot lose money
+						_ => None,
+					};
+					if let Some(what) = gated {
+						*saw_gated += 1;
+						if pending(sim, from) {
+							return Err(Failure::new("released-before-initial-persist", format!("node {} sent {} while its initial monitor persist / an update was still in flight", from, what)).with_key(format!("released-before-initial-persist/{}", what)));
+						}
+					}
+				},
+				M::S(SEvent::Broadcast { node, tx, .. }) => {
+					if let Some(f) = funding_tx {
+						if tx.compute_txid() == f.compute_txid() {
+							*saw_gated += 1;
+							if pending(sim, node) {
+								return Err(Failure::new("released-before-initial-persist", format!("node {} broadcast the funding transaction while its initial monitor persist was still in flight", node)).with_key("released-before-initial-persist/funding-broadcast"));
+							}
+						}
+					}
+				},
+				M::H(HEvent::PersistNew { in_progress: true, .. }) => *withheld += 1,
+				_ => {},
+			}
+		}
+		Ok(())
+	};
+	let complete = |sim: &mut Sim, node: usize| {
+		sim.complete_all_updates(node);
+	};
+	// helper: deliver everything queued, handling establishment events
+	let pump = |sim: &mut Sim, funding_tx: &mut Option<bitcoin::Transaction>| {
+		for _ in 0..12 {
+			sim.drain_all();
+			let live: Vec<(usize, usize)> = sim.links.iter().filter(|(_, q)| !q.is_empty()).map(|(k, _)| *k).collect();
+			let mut progress = !live.is_empty();
+			for (f, t) in live {
+				sim.deliver(f, t, 1);
+			}
+			for i in 0..2 {
+				for ev in sim.process_events(i) {
+					progress = true;
+					match ev {
+						Event::OpenChannelRequest { temporary_channel_id, counterparty_node_id, .. } => {
+							let _ = sim.w.nodes[i].node.accept_inbound_channel(&temporary_channel_id, &counterparty_node_id, 43, None);
+						},
+						Event::FundingGenerationReady { temporary_channel_id, counterparty_node_id, channel_value_satoshis, output_script, .. } => {
+							let tx = bitcoin::Transaction {
+								version: bitcoin::transaction::Version::TWO,
+								lock_time: bitcoin::absolute::LockTime::ZERO,
+								input: vec![],
+								output: vec![bitcoin::TxOut { value: bitcoin::Amount::from_sat(channel_value_satoshis), script_pubkey: output_script }],
+							};
+							*funding_tx = Some(tx.clone());
+							let _ = sim.w.nodes[i].node.funding_transaction_generated(temporary_channel_id, counterparty_node_id, tx);
+						},
+						_ => {},
+					}
+				}
+				sim.drain(i);
+			}
+			if !progress {
+				break;
+			}
+		}
+	};
+	// phase A: negotiation up to the point where persistence matters
+	pump(&mut sim, &mut funding_tx);
+	if let Err(e) = check(&sim, &funding_tx, &mut withheld, &mut saw_gated) {
+		if ctx.replay {
+			println!("==== history ====\n{}", dump_history(&sim));
+		}
+		return Err(e);
+	}
+	let stage_done = |at: u8, stage: u8| at <= stage;
+	for stage in 0u8..4 {
+		if stage_done(c.complete_fundee_at, stage) {
+			complete(&mut sim, 1);
+		}
+		if stage_done(c.complete_funder_at, stage) {
+			complete(&mut sim, 0);
+		}
+		pump(&mut sim, &mut funding_tx);
+		check(&sim, &funding_tx, &mut withheld, &mut saw_gated)?;
+		if stage == 1 {
+			// confirm the funding transaction if it has been broadcast (it is in the mempool then); otherwise
+			// just let time pass
+			let txs = sim.chain.mempool.clone();
+			sim.mine_block(txs);
+			sim.mine_empty(6);
+			pump(&mut sim, &mut funding_tx);
+			check(&sim, &funding_tx, &mut withheld, &mut saw_gated)?;
+		}
+		if stage == 2 {
+			sim.mine_empty(c.extra_blocks as u32 + 1);
+		}
+	}
+	complete(&mut sim, 0);
+	complete(&mut sim, 1);
+	let txs = sim.chain.mempool.clone();
+	sim.mine_block(txs);
+	sim.mine_empty(7);
+	pump(&mut sim, &mut funding_tx);
+	check(&sim, &funding_tx, &mut withheld, &mut saw_gated)?;
+	// (d) release: once everything completed the channel must come up
+	let ready = sim.w.nodes[0].node.list_channels().iter().any(|d| d.is_channel_ready) && sim.w.nodes[1].node.list_channels().iter().any(|d| d.is_channel_ready);
+	if funding_tx.is_some() {
+		vensure!(ready, "stuck-after-completion", "channel did not become ready although all persistence completed and the funding confirmed (async funder {}, fundee {}, completion stages {}/{})", c.async_funder, c.async_fundee, c.complete_funder_at, c.complete_fundee_at);
+	}
+	ctx.label_if(c.async_funder, "funder-async");
+	ctx.label_if(c.async_fundee, "fundee-async");
+	ctx.label_if(c.spec.deferred, "deferred-chain-monitor");
+	ctx.sub_evaluations(saw_gated as u64);
+	ctx.nontrivial_if(withheld > 0 && (c.complete_funder_at > 0 || c.complete_fundee_at > 0));
+	ctx.summary(json!({"type": format!("{:?}", c.spec.ctype), "async": [c.async_funder, c.async_fundee], "complete_at": [c.complete_funder_at, c.complete_fundee_at], "gated_emissions": saw_gated}));
+	Ok(())
+}
+
 fn main() {
 	install_recording_signer();
 	let mut c = Check::new("C09", "exploration");
@@ -140,6 +327,17 @@ fn main() {
 		},
 		|| strat(80),
 		oracle,
+	);
+	c.part_with(
+		PartSpec {
+			name: "open-async",
+			rule: "channel establishment on a fresh pair with the initial monitor persist of either side answered InProgress and completed at a generated stage (at once / after the peer's next message / after the funding confirmed / later): the funding broadcast and channel_ready leave only while nothing of that node is in flight, and the channel becomes ready once everything completed. Non-trivial: an initial persist was actually withheld past at least one stage",
+			quick_cases: 1200,
+			thorough_cases: 40_000,
+			max_shrink: 200,
+		},
+		open_strat,
+		open_oracle,
 	);
 	c.finish();
 }
